@@ -45,6 +45,7 @@ fn main() {
     let args: Vec<String> = std::env::args().skip(1).collect();
     let code = match args.first().map(|s| s.as_str()) {
         Some("worker") if args.len() >= 8 => worker::run_worker(&args[1..], &|p, s, t| sh::draw_case(p, s, t), &|c| sh::execute(c), &cleanup),
+        Some("traces") if args.len() >= 7 => worker::run_traces(&args[1..], &|p, s, t| sh::draw_case(p, s, t), &|c| sh::execute(c), &cleanup),
         Some("oneshot") => match read_case_stdin() {
             Some(c) => {
                 let v = sh::execute(&c);
